@@ -30,6 +30,25 @@ def sig(case, got):
     return "%s(%s) => %s" % (c["fn"], ",".join(cls), got["k"])
 
 
+
+def extras(ctx, tla):
+    """API outside the listed properties (Extras.tla): advisory OBSERVATION lines, never part of the verdict."""
+    ef = os.path.join(ctx.scratch, "extras.ndjson")
+    try:
+        ctx.drv(["extras", "--out", ef], timeout=120)
+        r = ctx.tlc("Trace_Extras", workers=1, timeout=300, cwd=tla, env_extra={"VERIF_TRACE": ef})
+    except core.Inconclusive as ex:
+        ctx.observations.append("extras sweep not evaluated: %s" % ex)
+        return
+    cons = r.printed("CONSUMED")
+    rows = core.read_ndjson(ef)
+    for x in r.printed("MISMATCH"):
+        ln = int(x.split(",")[0])
+        e = rows[ln - 1]
+        ctx.observations.append("%s disagrees with its definition in Extras.tla: %s" % (e["fn"], json.dumps(e)[:200]))
+    ctx.notes.append("extras sweep (Extras.tla, outside the listed properties): %s calls of %d API functions judged, %d disagree" % (
+        cons[-1].split(",")[0].strip() if cons else "?", len({e["fn"] for e in rows}), len(r.printed("MISMATCH"))))
+
 def run(ctx, replay=None):
     tla = ctx.stage_specs()
     quick = ctx.tier == "quick"
@@ -79,6 +98,7 @@ def run(ctx, replay=None):
         "element types int, string, struct{int,string} stand for 'all element types' (the helpers are generic and never inspect T beyond ==)",
         "documentation-silent edges admit two outcomes (DESIGN.md appendix A): Take/TakeLast n<=0, IsEqual/IsEqualMap/IsDistinct on empty input, SplitEvery of the empty list, Drop/DropLast of a singleton with n<=0",
     ]
+    extras(ctx, tla)
     return ctx.finish(RULE, exhaustive=True, trusted=["TLC 1.8.0", "drv c03 (concretisation table, projection of results)"])
 
 
